@@ -633,7 +633,7 @@ Proof.
     destruct l as [|q1 l1]; try contradiction. destruct q1; try contradiction.
     destruct l1 as [|q2 l2]; try contradiction. destruct q2; try contradiction. destruct l2; try contradiction.
     apply Hset; try reflexivity; [intros e0 [<-|[]]; reflexivity|exact A3].
-  - injection H as <- <- <-. apply Hset; try reflexivity; [apply in_db_nil|]. intros k' x. rewrite <- (A3 k' x). reflexivity.
+  - destruct (c =? 0); injection H as <- <- <-; (apply Hset; try reflexivity; [apply in_db_nil|]; intros k' x; rewrite <- (A3 k' x); reflexivity).
 Qed.
 
 (** ================= any list command; the queue of an EXEC ================= *)
@@ -788,6 +788,7 @@ Proof.
   destruct (timeout_of (last parts FNull) oms); [|injection H as _ _ <-; apply blk_from_same; reflexivity].
   destruct (all_bulks (removelast (tl parts))); [|injection H as _ _ <-; apply blk_from_same; reflexivity].
   destruct (fast_path left (get_db s dbi) l) as [[r|] d']; [injection H as _ _ <-; apply blk_from_same; reflexivity|].
+  destruct (c =? 0); [injection H as _ _ <-; apply blk_from_same; reflexivity|].
   destruct (zlookup c (s_conns s)); injection H as _ _ <-; [|apply blk_from_same; reflexivity].
   intros c' st' Hc. cbn [set_blocked with_blk with_reg b_blk] in Hc. destruct (Z.eq_dec c' c) as [->|Hne].
   - rewrite zlookup_zset_same in Hc. injection Hc as <-. right. reflexivity.
@@ -959,7 +960,7 @@ Proof.
   intros (HR & Hc & CI & HB & HE) Hok. pose proof (ok_cons_ok _ _ Hok) as Hok1.
   assert (HR' : reach None (step st e)) by (apply reach_step; assumption).
   destruct st as [s b]. cbn [fst snd] in *.
-  destruct (reach_inv None _ HR) as [Hi|(HA & Q & H0)]; [cbn [snd] in Hi; congruence|]. cbn [fst snd] in *.
+  destruct (reach_inv None _ HR) as [Hi|(HA & H0)]; [cbn [snd] in Hi; congruence|]. cbn [fst snd] in *.
   unfold ginv. split; [exact HR'|]. clear HR'.
   assert (Fin : forall s' b', b_crashed b' = false -> cinv s' -> BR b' ->
             delta s s' (pushed_in (s, b) e) (returned_in (s, b) e) ->
@@ -973,10 +974,10 @@ Proof.
   destruct e as [now c f oms| |now|c|c].
   - (* a request *)
     cbn [ok] in Hok1. destruct (zlookup c (s_conns s)) as [cn|] eqn:Hcn; [|discriminate].
-    apply andb_true_iff in Hok1. destruct Hok1 as [Hok1 Hq]. apply andb_true_iff in Hok1. destruct Hok1 as [Hnb Hg].
-    apply negb_true_iff in Hnb, Hg. apply is_blocked_false in Hnb.
+    apply andb_true_iff in Hok1. destruct Hok1 as [Hnb Hq].
+    apply negb_true_iff in Hnb. apply is_blocked_false in Hnb.
     destruct (bprocess_frame now s b c f None oms) as [[rep s'] b1] eqn:E.
-    destruct (bprocess_frame_inv _ _ _ _ _ _ _ _ _ _ _ HA Q H0 Hcn Hnb Hg E) as (G1 & G2 & G3 & G4 & G5 & G6).
+    destruct (bprocess_frame_inv _ _ _ _ _ _ _ _ _ _ _ HA H0 Hcn Hnb E) as (G1 & G3 & G4 & G5 & G6).
     destruct (bprocess_frame_delta _ _ _ _ _ _ _ _ _ _ CI Hcn Hok2 E) as (D1 & D2).
     pose proof (bprocess_frame_blk_db _ _ _ _ _ _ _ _ _ _ _ Hcn E) as D3.
     apply (Fin s' (match rep with FNoResponse => b1 | _ => emit b1 c rep end)).
